@@ -28,29 +28,17 @@ RULE_FED = ("fedlab part: (a) two hand-written federations -- an interface whose
             "coordinate. Distinct by hash of the line.")
 
 # narrow keys of the findings of the fedlab part: (key, regex on the failed clause + detail)
+# narrow keys of the recorded findings of the fedlab part: (key, regex on the failed clause + detail).
+# Two earlier findings are REPAIRED in /repo (work/c14_fix_*.patch) and deliberately have no mapping any more, so
+# that a regression shows as a VIOLATION; their reproductions stay in the corpus (fixture stream) as passing cases:
+#   gate-entity-fetch-below-fragment-has-no-root-fields  (clause fetch_gate/no-rootfields)  plan/path_builder_visitor.go fieldIsChildNode
+#   merged-field-keeps-rule-of-unconditioned-occurrence  (clauses */merged)                 postprocess/merge_fields.go
 KNOWN = [
-    ("gate-entity-fetch-below-fragment-has-no-root-fields", r"^fetch_gate/no-rootfields "),
-    ("merged-field-keeps-rule-of-unconditioned-occurrence", r"^(denied_absent|denied_reported|sentinel_absent|collector_complete)/merged "),
     ("prefetch-gate-starves-fetch-depending-on-denied-input",
      r"^(requires_input_intact |(allowed_untouched|propagates_like_null)/input-fetch-held-back\[)"),
 ]
 
 KNOWN_TEXT = {
-    "gate-entity-fetch-below-fragment-has-no-root-fields":
-        "plan/path_builder_visitor.go fieldIsChildNode compares the walker path with the planner's parent path textually; below an "
-        "inline fragment the path has an extra `$0Type` element, so every field of an entity fetch planned under `... on T` counts "
-        "as a child node and FetchInfo.RootFields stays EMPTY. isFetchAuthorizedFromCache (and the legacy AuthorizePreFetch loop, "
-        "and the collector's fetch side) then see no root field: with P={Product.price} denied, `{ nodes { ... on Product { price } } }` "
-        "still sends `_entities{... on Product{__typename price}}` to the subgraph in pre-fetch mode, while `{ product { price } }` "
-        "(same fetch without the fragment) is held back. The response is still nulled by the renderer; only the request-not-sent "
-        "guarantee is lost.",
-    "merged-field-keeps-rule-of-unconditioned-occurrence":
-        "postprocess/merge_fields.go step 3 merges a field without type condition over the same response key selected under "
-        "`... on T` and keeps only the FieldInfo of the unconditioned one (mergeValues merges the values, never Info): "
-        "`{ nodes { secret ... on User { secret } } }` plans ONE field `secret` with coordinate Node.secret; the occurrence "
-        "User.secret and its HasAuthorizationRule are gone before the collector runs. With the rule on User.secret only, the "
-        "user's secret is rendered under a denied coordinate in BOTH modes; with rules on both and Node.secret allowed / "
-        "User.secret denied, pre-fetch mode never asks about User.secret and renders the value, no error.",
     "prefetch-gate-starves-fetch-depending-on-denied-input":
         "pre-fetch mode authorizes (and gates on) root fields the planner added itself: a protected @requires input or @key field "
         "that the client did not select is put before the batch authorizer, and when it is denied the fetch that only provides it "
